@@ -15,7 +15,7 @@ import (
 func init() {
 	register(&propDef{
 		id:      "C01",
-		explain: "Structural necessary conditions of 'requests are framed as RFC 9112 says or rejected': (R1) exhaustive path exploration of the request head field loop (the function reachable from RequestHeader.Read that compares field names with Content-Length and Transfer-Encoding): every accepting return (nil error) reached after both a Content-Length and a Transfer-Encoding field, or after a Transfer-Encoding field whose value did not match 'chunked', has connectionClose = true; a second Content-Length or Transfer-Encoding field, and a Transfer-Encoding on an HTTP/1.0 request, never reach an accepting return; every error return has connectionClose = true; (R2) in the serve loop the handler is only dispatched on paths where every head/body reader returned nil, and no iteration follows an error response; (R3) the chunk-size line scanner never skips a byte without having compared it with CR and LF, and every rejection in the chunk decoder returns a non-nil error; (R4) the functions the serve loop calls to read a request body report success without going through the framed-body reader only under a condition on the request's own framing (Expect: 100-continue deferral, declared length) - never on the method or on configuration alone, which would leave a declared body on the connection. Not decided: that method/target/body equal the RFC's for the longest accepted prefix; obs-fold and bare-LF treatment in the head (C09).",
+		explain: "Structural necessary conditions of 'requests are framed as RFC 9112 says or rejected': (R1) exhaustive path exploration of the request head field loop, in the mode the server parses in (special headers on) (the function reachable from RequestHeader.Read that compares field names with Content-Length and Transfer-Encoding): every accepting return (nil error) reached after both a Content-Length and a Transfer-Encoding field, or after a Transfer-Encoding field whose value did not match 'chunked', has connectionClose = true; a second Content-Length or Transfer-Encoding field, and a Transfer-Encoding on an HTTP/1.0 request, never reach an accepting return; every error return has connectionClose = true; (R2) in the serve loop the handler is only dispatched on paths where every head/body reader returned nil, and no iteration follows an error response; (R3) the chunk-size line scanner never skips a byte without having compared it with CR and LF, and every rejection in the chunk decoder returns a non-nil error; (R4) the functions the serve loop calls to read a request body report success without going through the framed-body reader only under a condition on the request's own framing (Expect: 100-continue deferral, declared length) - never on the method or on configuration alone, which would leave a declared body on the connection. Not decided: that method/target/body equal the RFC's for the longest accepted prefix; obs-fold and bare-LF treatment in the head (C09).",
 		run: func(p *Prog, r *Report) {
 			runC01Head(p, r)
 			p.serveLoop("C01").report(r, "C01")
@@ -69,6 +69,7 @@ func c01ExploreHead(p *Prog, r *Report, fn *ssa.Function, cic *ssa.Function) {
 		bTE2
 		bChunked
 		bFramingChunked // the code's own framing cell (contentLength) was found equal to -1 (= chunked) by a test on this path
+		bInfeasible     // two tests of the same pure expression on the same field line came out differently
 	)
 	name := funcName(fn)
 	cmpGlobal := func(v ssa.Value) string {
@@ -119,10 +120,113 @@ func c01ExploreHead(p *Prog, r *Report, fn *ssa.Function, cic *ssa.Function) {
 		}
 	}
 	var closeKey, http10Key string
+	// The field loop looks at the name of the current line more than once (a first switch that detects repeated
+	// framing fields, a second one that stores the field): the same comparison over the same line must come out the
+	// same way within one iteration. shapeOf renders such a test independently of which load instruction fed it;
+	// the scanner is only advanced by the loop condition, so the line does not change inside an iteration.
+	var shapeOf func(x *Explorer, v ssa.Value, d int) (string, bool)
+	shapeOf = func(x *Explorer, v ssa.Value, d int) (string, bool) {
+		if d > 6 {
+			return "", false
+		}
+		switch w := v.(type) {
+		case *ssa.Const:
+			if w.Value == nil {
+				return "nil", false
+			}
+			return w.Value.ExactString(), false
+		case *ssa.BinOp:
+			a, ea := shapeOf(x, w.X, d+1)
+			b, eb := shapeOf(x, w.Y, d+1)
+			if a == "" || b == "" {
+				return "", false
+			}
+			return "(" + a + w.Op.String() + b + ")", ea || eb
+		case *ssa.Convert:
+			return shapeOf(x, w.X, d+1)
+		case *ssa.UnOp:
+			if w.Op == token.MUL {
+				if ia, ok := w.X.(*ssa.IndexAddr); ok {
+					idx, _ := shapeOf(x, ia.Index, d+1)
+					base, _ := shapeOf(x, ia.X, d+1)
+					if idx == "" || base == "" {
+						return "", false
+					}
+					return base + "[" + idx + "]", true
+				}
+				if fa, ok := w.X.(*ssa.FieldAddr); ok {
+					return "*" + x.Canon(fa), false
+				}
+			}
+			return "", false
+		case *ssa.Call:
+			if isCallTo(w, cic) && len(w.Call.Args) == 2 {
+				a, _ := shapeOf(x, w.Call.Args[0], d+1)
+				g := globalOf(w.Call.Args[1])
+				if g == "" {
+					g = globalOf(w.Call.Args[0])
+					a, _ = shapeOf(x, w.Call.Args[1], d+1)
+				}
+				if a == "" || g == "" {
+					return "", false
+				}
+				return "cic(" + a + "," + g + ")", true
+			}
+			return "", false
+		}
+		return "", false
+	}
+	loopHdr := (*ssa.BasicBlock)(nil)
 	x := NewExplorer(p, fn, Hooks{
+		Prune: func(x *Explorer, st *State, b *ssa.BasicBlock) bool { return st.Has(bInfeasible) },
+		Edge: func(x *Explorer, st *State, from, to *ssa.BasicBlock) {
+			if loopHdr != nil && to == loopHdr && inLoop(loopHdr, from) {
+				for k := range st.facts {
+					if strings.HasPrefix(k, "shape:") || strings.HasPrefix(k, "eq:") {
+						delete(st.facts, k)
+					}
+				}
+			}
+		},
 		Branch: func(x *Explorer, st *State, cond ssa.Value, taken bool, from *ssa.BasicBlock) {
 			pos, v := stripNot(cond)
 			tk := taken == pos
+			if sh, elem := shapeOf(x, v, 0); sh != "" && elem {
+				key := "shape:" + sh
+				if prev, has := st.facts[key]; has && prev != absOf(tk) {
+					st.Set(bInfeasible)
+				} else {
+					x.keep[key] = true
+					st.facts[key] = absOf(tk)
+				}
+				// a byte of the line equals at most one constant
+				if bo, ok := v.(*ssa.BinOp); ok && (bo.Op == token.EQL || bo.Op == token.NEQ) {
+					if c, isC := bo.Y.(*ssa.Const); isC && c.Value != nil && tk == (bo.Op == token.EQL) {
+						if lhs, _ := shapeOf(x, bo.X, 1); lhs != "" {
+							pre := "eq:" + lhs + "=="
+							mine := pre + c.Value.ExactString()
+							for k := range st.facts {
+								if k != mine && strings.HasPrefix(k, pre) {
+									st.Set(bInfeasible)
+								}
+							}
+							x.keep[mine] = true
+							st.facts[mine] = True
+						}
+					}
+				}
+				// one line has one name: it cannot equal two different constant names
+				if tk && strings.HasPrefix(sh, "cic(") {
+					if i := strings.LastIndex(sh, ","); i > 0 {
+						pre := "shape:" + sh[:i+1]
+						for k, a := range st.facts {
+							if a == True && k != key && strings.HasPrefix(k, pre) {
+								st.Set(bInfeasible)
+							}
+						}
+					}
+				}
+			}
 			if bo, ok := v.(*ssa.BinOp); ok && (bo.Op == token.EQL || bo.Op == token.NEQ) {
 				if k, okc := constInt(bo.Y); okc && k == -1 {
 					if _, fv := loadedField(bo.X); fv != nil && fv.Name() == "contentLength" {
@@ -168,8 +272,8 @@ func c01ExploreHead(p *Prog, r *Report, fn *ssa.Function, cic *ssa.Function) {
 					note("accepted head with both Content-Length and Transfer-Encoding leaves connectionClose set", closeKnown, x, st, ret.Pos(), "")
 				}
 				if st.Has(bTE) {
-					note("accepted head with Transfer-Encoding uses chunked framing (framing cell tested == -1, no Content-Length) or leaves connectionClose set",
-						closeKnown || (st.Has(bFramingChunked) && !st.Has(bCL)), x, st, ret.Pos(), "")
+					note("accepted head with Transfer-Encoding uses chunked framing (value matched 'chunked' or framing cell tested == -1; no Content-Length) or leaves connectionClose set",
+						closeKnown || ((st.Has(bFramingChunked) || st.Has(bChunked)) && !st.Has(bCL)), x, st, ret.Pos(), "")
 				}
 				if st.Has(bTE) {
 					note("an accepted head has at most one Transfer-Encoding field", !st.Has(bTE2), x, st, ret.Pos(), "")
@@ -191,17 +295,36 @@ func c01ExploreHead(p *Prog, r *Report, fn *ssa.Function, cic *ssa.Function) {
 		return
 	}
 	x.keep = map[string]bool{closeKey: true}
+	// the field loop: the loop whose body holds the comparisons with the framing field names
+	for _, b := range fn.Blocks {
+		for _, in := range b.Instrs {
+			if c, ok := in.(*ssa.Call); ok && isCallTo(c, cic) && globalOf(c.Call.Args[1]) == "strTransferEncoding" {
+				if h := loopHeaderOf(b); h != nil {
+					loopHdr = h
+				}
+			}
+		}
+	}
 	if http10Key != "" {
 		x.keep[http10Key] = true
 	}
 	// remember only what the rule needs: the two fields, the contentLength cell, and boolean locals
 	x.Filter = func(k string) bool {
+		// (the two mode switches of the header are not written while a head is parsed: two tests of them agree)
 		return strings.Contains(k, ".connectionClose@") || strings.Contains(k, ".noHTTP11@") || strings.Contains(k, ".contentLength@") ||
+			strings.Contains(k, ".disableSpecialHeader@") || strings.Contains(k, ".secureErrorLogMessage@") || strings.HasPrefix(k, "shape:") || strings.HasPrefix(k, "eq:") ||
 			strings.HasPrefix(k, "v<") || strings.HasPrefix(k, "ld<") || strings.HasPrefix(k, "call<") || strings.HasPrefix(k, "!(") || strings.HasPrefix(k, "(")
 	}
 	x.TrackAll = true
 	x.MaxStates = 3000000
-	x.Run(nil)
+	// the head is parsed in the mode the server uses: special headers on (RequestHeader.Reset switches the
+	// client-side DisableSpecialHeader option off - C11.E7 - and the serve loop resets the request before it parses)
+	init := &State{facts: map[string]Abs{}, ints: map[string]int64{}}
+	if k := memKey(x, "disableSpecialHeader"); k != "" {
+		x.keep[k] = true
+		init.facts[k] = False
+	}
+	x.Run(init)
 	r.Counts["R1 "+name+" states explored"] = x.States
 	if x.Aborted {
 		r.Undecided("R1", name+": exploration", "state budget exhausted")
@@ -241,7 +364,7 @@ func c01ExploreHead(p *Prog, r *Report, fn *ssa.Function, cic *ssa.Function) {
 	r.Floor("R1", name+" stores switching framing to chunked", nst, 1)
 	must := []string{
 		"accepted head with both Content-Length and Transfer-Encoding leaves connectionClose set",
-		"accepted head with Transfer-Encoding uses chunked framing (framing cell tested == -1, no Content-Length) or leaves connectionClose set",
+		"accepted head with Transfer-Encoding uses chunked framing (value matched 'chunked' or framing cell tested == -1; no Content-Length) or leaves connectionClose set",
 		"an accepted head has at most one Transfer-Encoding field",
 		"an accepted head has at most one Content-Length field",
 		"Transfer-Encoding on an HTTP/1.0 request is never accepted",
